@@ -61,14 +61,33 @@ func (p *PutPlan) processKVPair(ctx *ExecuteCtx, kvp *PutKVPair) ([]byte, []byte
 	if err != nil {
 		return nil, nil, err
 	}
-	key := []byte(toString(rkey))
+	key, err := writableBytes(kvp.Key, rkey)
+	if err != nil {
+		return nil, nil, err
+	}
 	ekvp.Key = key
 	rvalue, err := kvp.Value.Execute(ekvp, ctx)
 	if err != nil {
 		return nil, nil, err
 	}
-	value := []byte(toString(rvalue))
+	value, err := writableBytes(kvp.Value, rvalue)
+	if err != nil {
+		return nil, nil, err
+	}
 	return key, value, nil
+}
+
+// writableBytes renders the result of a PUT / REMOVE expression. Only text
+// and numbers can be written: a JSON member is typed as text but may turn out
+// to be null, a Boolean, an object or an array when it is evaluated
+func writableBytes(expr Expression, result any) ([]byte, error) {
+	switch result.(type) {
+	case string, []byte,
+		int, int8, int16, int32, int64, uint, uint8, uint16, uint32, uint64,
+		float32, float64:
+		return []byte(toString(result)), nil
+	}
+	return nil, NewExecuteError(expr.GetPos(), "%s is not a string or number, cannot be written", expr.String())
 }
 
 func (p *PutPlan) execute(ctx *ExecuteCtx) (int, error) {
